@@ -366,7 +366,7 @@ func (s *linState) recipeFree(i int) {
 //	cfg 2: ring buffer L3(3, j, m): 3 lower allocations, free the first j in {1,2}, m in {2,3,4} wrap-around allocations
 //	cfg 3: double stack L2(2, 2): 2 lower + 2 upper allocations
 //	cfg 4: stack L1(4) with the two middle entries freed (null items in the middle of the first vector)
-//	cfg 7: small ring buffer L3(2,1,2)
+//	cfg 7: small ring buffer L3(2,1,2)     cfg 8: ring buffer L3(2,1,3) with concrete sizes except one wrapped entry
 //	cfg 5/6: compaction family (36 entries in the first vector, 21 freed in the middle; 5 = with an upper stack)
 func linearHistory(prop int, cfg int) {
 	B := 100
@@ -404,6 +404,19 @@ func linearHistory(prop int, cfg int) {
 		s.recipeFree(0)
 		s.recipeAlloc(false, false, AllocationRequestEndOf2nd)
 		s.recipeAlloc(false, true, AllocationRequestEndOf2nd)
+		K = 2
+		if verifTier() == 1 {
+			K = 3
+		}
+	case 8:
+		// ring buffer L3(2,1,3), sizes concrete except the middle wrapped entry (a hole inside the second vector
+		// followed by the swap of the vectors is reachable in two operations)
+		s.recipeAllocSized(false, 30, AllocationRequestEndOf1st)
+		s.recipeAllocSized(false, 67, AllocationRequestEndOf1st)
+		s.recipeFree(0)
+		s.recipeAllocSized(false, 5, AllocationRequestEndOf2nd)
+		s.recipeAlloc(false, false, AllocationRequestEndOf2nd)
+		s.recipeAllocSized(false, 4, AllocationRequestEndOf2nd)
 		K = 2
 		if verifTier() == 1 {
 			K = 3
